@@ -204,6 +204,442 @@ def turtle_case(seed):
     return {"problems": [] if outs[0] == outs[1] else [f"two TurtleMD runs with seed {seed} differ"]}
 
 
+# --------------------------------------------------------------------------- round 6: re-sorting steps and restart chains
+#
+# (a) every in-memory variable the next step reads must be a function of what a restart reloads.  The probability
+#     matrix is such a variable (cached in `_last_prob`, not in restart.toml): at every pick of an uninterrupted run
+#     the matrix the program uses must equal the one recomputed from scratch from the current weight matrix and busy
+#     flags (what a process restarted at that step computes).  Set-ups in which sort_trajstate really moves
+#     trajectories (the steps at which the cache has to be refreshed) are run in one go and split at EVERY step.
+# (b) allowmaxlength = false: the scope sentence prescribes comparing restart CHAINS (all starting with the same
+#     first restart, so that the documented loss of the 'initial path' marker is the same in every history).
+
+
+class ProbRec:
+    """Observer of one run of the program (one process): the P oracle at every pick, the steps in which
+    sort_trajstate moved trajectories, the status of every completed move."""
+
+    def __init__(self):
+        self.npicks = 0
+        self.stale = []        # dict(step, used, fresh, W, busy)
+        self.sort_moves = []   # cstep of the treat_output in which sort_trajstate changed the layout
+        self.moves = []        # (cstep, status, [ensembles], [old path numbers], [marker of the old paths])
+        self.loaded = []       # live path numbers when the process started
+        self.traj_num0 = None
+
+    def on_submit(self, ordinal, md):
+        pass
+
+    def on_complete(self, ordinal):
+        pass
+
+    def attach(self, state):
+        import numpy as np
+        rec = self
+        rec.loaded = [t.path_number for t in state._trajs[:-1] if t != ""]
+        rec.traj_num0 = int(state.config["current"]["traj_num"])
+        o_pick, o_sort, o_treat = state.pick, state.sort_trajstate, state.treat_output
+
+        def pick():
+            if state.n <= 12:     # blocks of more than 12 paths draw random numbers inside inf_retis: not recomputed here
+                try:
+                    used = np.array(state.prob, dtype=float)          # the matrix pick() is about to use (cached, or computed now)
+                    fresh = np.array(state.inf_retis(abs(state.state), state._locks), dtype=float)
+                except Exception:  # noqa: BLE001  (the program's own pick will fail the same way)
+                    used = fresh = None
+                if used is not None:
+                    rec.npicks += 1
+                    if used.shape != fresh.shape or not np.allclose(used, fresh, rtol=0.0, atol=1e-9):
+                        rec.stale.append({"step": int(state.cstep),
+                                          "P_used": [[round(float(x), 6) for x in r] for r in used],
+                                          "P_recomputed": [[round(float(x), 6) for x in r] for r in fresh],
+                                          "W": [[float(x) for x in r] for r in abs(state.state)],
+                                          "busy": [int(x) for x in state._locks],
+                                          "live": [int(p) for p in state.live_paths()]})
+            return o_pick()
+
+        def sort_trajstate():
+            before = list(state.live_paths())
+            out = o_sort()
+            if list(state.live_paths()) != before:
+                rec.sort_moves.append(int(state.cstep))
+            return out
+
+        def treat(md):
+            picked = md["picked"]
+            marks = []
+            for e in picked:
+                old = state._trajs[int(e) + state._offset]
+                marks.append(old.generated[0] if getattr(old, "generated", None) else None)
+            rec.moves.append((int(state.cstep), md["status"], [int(e) for e in picked], [int(picked[e]["pn_old"]) for e in picked], marks))
+            return o_treat(md)
+
+        state.pick, state.sort_trajstate, state.treat_output = pick, sort_trajstate, treat
+
+
+def all_files(wd):
+    """what is compared byte for byte: infretis_data.txt, restart.toml (minus restarted_from), and order.txt / energy.txt
+    of EVERY stored path (traj.txt names files after the process id)"""
+    with open(os.path.join(wd, "infretis_data.txt"), "rb") as f:
+        data = f.read()
+    stored = {}
+    load = os.path.join(wd, "load")
+    for pn in sorted(os.listdir(load), key=lambda s: (len(s), s)):
+        for txt in ("order.txt", "energy.txt"):
+            p = os.path.join(load, pn, txt)
+            if os.path.exists(p):
+                with open(p, "rb") as f:
+                    stored[f"load/{pn}/{txt}"] = f.read()
+    return {"infretis_data.txt": data, "restart.toml": norm_restart(os.path.join(wd, "restart.toml")), "stored": stored}
+
+
+def describe_diff(ref, got):
+    """names of the compared files that differ (with the first differing restart.toml entries)"""
+    out = []
+    if ref["infretis_data.txt"] != got["infretis_data.txt"]:
+        out.append("infretis_data.txt")
+    if ref["restart.toml"] != got["restart.toml"]:
+        import tomli
+        a, b = tomli.loads(ref["restart.toml"]), tomli.loads(got["restart.toml"])
+        keys = [f"[{s}].{k}: {str(a.get(s, {}).get(k))[:50]} | {str(b.get(s, {}).get(k))[:50]}"
+                for s in sorted(set(a) | set(b)) if isinstance(a.get(s, {}), dict) and isinstance(b.get(s, {}), dict)
+                for k in sorted(set(a.get(s, {})) | set(b.get(s, {}))) if a.get(s, {}).get(k) != b.get(s, {}).get(k)]
+        out.append("restart.toml " + "; ".join(keys[:3]))
+    names = sorted(set(ref["stored"]) | set(got["stored"]))
+    bad = [n for n in names if ref["stored"].get(n) != got["stored"].get(n)]
+    if bad:
+        out.append(f"{len(bad)} stored files ({', '.join(bad[:4])}{', ...' if len(bad) > 4 else ''})")
+    return out
+
+
+def run_history(wd, kw, stops, recs=None):
+    """Fresh set-up in wd; run with a stop + restart from the files on disk at each of the (absolute) steps `stops`, then
+    to the end.  Returns (status of the last process, [ProbRec of every process]); `recs` (a list) receives the observers
+    as the processes start, so that they survive a run that dies."""
+    H.write_setup(wd, **kw)
+    recs = [] if recs is None else recs
+    done, first, res = 0, True, {"status": "none"}
+    for k in list(stops) + [None]:
+        rec = ProbRec()
+        recs.append(rec)
+        res = H.run_sim(wd, inp="infretis.toml" if first else "restart.toml",
+                        stop_after=None if k is None else k - done, recorder=rec)
+        first = False
+        if res["status"] != "stopped":
+            break
+        done = k
+    return res["status"], recs
+
+
+def program_died(e, tb):
+    frames = [ln for ln in tb.splitlines() if ln.strip().startswith("File ") and ("/infretis/" in ln or "/verif/py" in ln)]
+    if frames and "/infretis/" in frames[-1]:
+        return f"{e!r} ({frames[-1].strip()[:160]})"
+    return None
+
+
+def resort_group(case):
+    """(label, kw, mode): one straight run (P oracle at every pick, re-sorting steps counted), then the run split at every
+    step (mode 'all') or at the steps behind which the P oracle saw a stale matrix (mode 'stale'), each compared byte for
+    byte with the straight run."""
+    import traceback
+    label, kw, mode = case
+    N = kw["steps"]
+    out = {"stale": [], "sort_moves": [], "npicks": 0, "splits": [], "byte_fail": [], "harness": []}
+    wd0 = H.scratch("infv_c06r_")
+    try:
+        ref, recs = None, []
+
+        def observed():
+            if recs:
+                rec = recs[0]
+                out["stale"], out["sort_moves"], out["npicks"] = rec.stale[:4], [k for k in rec.sort_moves if k < N], rec.npicks
+                out["n_stale"] = len(rec.stale)
+
+        try:
+            status, _ = run_history(wd0, kw, (), recs)
+            observed()
+            if status != "done":
+                out["harness"].append(f"straight run ended with {status}")
+                return out
+            ref = all_files(wd0)
+        except Exception as e:  # noqa: BLE001
+            tb = traceback.format_exc()
+            died = program_died(e, tb)
+            if died is None:
+                out["harness"].append(f"case crashed: {e!r} {tb[-800:]}")
+                return out
+            observed()
+            out["straight_died"] = died
+        stale_steps = sorted({s["step"] for s in out["stale"]})
+        if mode == "all":
+            splits = list(range(1, N))
+        elif mode == "stale":
+            splits = [k for k in stale_steps if 0 < k < N]
+        else:
+            splits = [int(k) for k in mode]        # replay: the stored split point(s)
+        if ref is None:
+            # the uninterrupted run died: a run restarted behind the last stale matrix that completes shows the two
+            # histories are not the same
+            splits = [k for k in stale_steps if 0 < k < N] or list(range(1, N))
+        for k in splits:
+            wd1 = H.scratch("infv_c06s_")
+            try:
+                try:
+                    status, _ = run_history(wd1, kw, (k,))
+                except Exception as e:  # noqa: BLE001
+                    tb = traceback.format_exc()
+                    died = program_died(e, tb)
+                    if died is None:
+                        out["harness"].append(f"case crashed: {e!r} {tb[-800:]}")
+                    elif ref is not None:
+                        out["byte_fail"].append({"split": k, "what": f"the run restarted at step {k} died inside the program with {died}; the run in one go completed"})
+                    continue
+                out["splits"].append(k)
+                if status != "done":
+                    out["harness"].append(f"run restarted at {k} ended with {status}")
+                    continue
+                if ref is None:
+                    out["byte_fail"].append({"split": k, "what": f"{N} steps in one go die inside the program with {out['straight_died']}; "
+                                                                  f"a stop after step {k} + restart from the files on disk completes all {N} steps"})
+                    break
+                d = describe_diff(ref, all_files(wd1))
+                if d:
+                    out["byte_fail"].append({"split": k, "what": f"{N} steps in one go and a stop after step {k} + restart differ in: " + "; ".join(d)})
+            finally:
+                shutil.rmtree(wd1, ignore_errors=True)
+        if ref is None and not out["byte_fail"]:
+            out["all_died"] = f"the run in one go died inside the program ({out['straight_died']}) and so did every restarted run tried ({splits})"
+    finally:
+        shutil.rmtree(wd0, ignore_errors=True)
+    return out
+
+
+def chain_group(case):
+    """(label, kw, chains): allowmaxlength = false.  Every chain (tuple of absolute stop steps, all with the same first
+    stop) is run from a fresh set-up; all are compared byte for byte with the first one."""
+    import traceback
+    label, kw, chains = case
+    N = kw["steps"]
+    out = {"harness": [], "cuts": {"FTL": 0, "BTL": 0}, "moves": 0, "sensitive_cuts": 0, "compared": [], "byte_fail": [], "died": []}
+    name = lambda ch: " -> ".join(map(str, list(ch) + [N]))  # noqa: E731
+    ref, ref_died = None, None
+    for ci, chain in enumerate(chains):
+        wd = H.scratch("infv_c06h_")
+        try:
+            try:
+                status, recs = run_history(wd, kw, chain)
+            except Exception as e:  # noqa: BLE001
+                tb = traceback.format_exc()
+                died = program_died(e, tb)
+                if died is None:
+                    out["harness"].append(f"case crashed: {e!r} {tb[-800:]}")
+                    if ci == 0:
+                        return out
+                    continue
+                out["died"].append(list(chain))
+                if ci == 0:
+                    ref_died = died
+                elif ref is not None:
+                    out["compared"].append(list(chain))
+                    out["byte_fail"].append({"chain": list(chain), "what": f"restart chain {name(chains[0])} completes; a run of the restart chain "
+                                                                           f"{name(chain)} dies inside the program with {died}"})
+                continue
+            if status != "done" or len(recs) != len(chain) + 1:
+                out["harness"].append(f"chain {chain} ended with {status} after {len(recs)} processes")
+                if ci == 0:
+                    return out
+                continue
+            # moves cut by the random length bound (statuses FTL / BTL; FTX / BTX are the hard maxlength)
+            first_new = recs[1].traj_num0          # paths with a number >= this were generated after the first restart
+            for si, rec in enumerate(recs):
+                for (cstep, st, ens, pn_old, marks) in rec.moves:
+                    if ci == 0:
+                        out["moves"] += 1
+                        if st in out["cuts"]:
+                            out["cuts"][st] += 1
+                    # a cut that depends on the marker of a re-loaded path generated between two restarts
+                    if si >= 2 and si == len(recs) - 1 and st in ("FTL", "BTL") and len(pn_old) == 1 \
+                            and pn_old[0] in rec.loaded and pn_old[0] >= first_new:
+                        out["sensitive_cuts"] += 1
+            got = all_files(wd)
+            if ci == 0:
+                ref = got
+                continue
+            out["compared"].append(list(chain))
+            if ref is None:
+                if ref_died and not out["byte_fail"]:
+                    out["byte_fail"].append({"chain": list(chain), "what": f"a run of the restart chain {name(chains[0])} dies inside the program with {ref_died}; "
+                                                                           f"restart chain {name(chain)} completes"})
+                continue
+            d = describe_diff(ref, got)
+            if d:
+                out["byte_fail"].append({"chain": list(chain), "what": f"restart chain {name(chains[0])} and restart chain {name(chain)} differ in: " + "; ".join(d)})
+        finally:
+            shutil.rmtree(wd, ignore_errors=True)
+    if ref_died and not out["byte_fail"]:
+        out["all_died"] = f"every restart chain of the group died inside the program ({ref_died})"
+    return out
+
+
+def reach(kind, n):
+    """initial paths for n interfaces: how far the path of ensemble slot i reaches (see sysharness.initial_orders)"""
+    if kind == "low1":       # the path of [0+] reaches the top: it can be drawn for every ensemble
+        return [0, n] + list(range(2, n))
+    if kind == "low2":
+        return [0, n, n] + list(range(3, n))
+    if kind == "half":
+        return [0] + [n if i % 2 else i for i in range(1, n)]
+    if kind == "all":
+        return [0] + [n] * (n - 1)
+    return None
+
+
+def round6_cases(quick, rng):
+    rcases, ccases = [], []
+    # (a) re-sorting set-ups: many ensembles, low slots holding far-reaching paths (picks that displace a path into a slot
+    #     where its weight is zero), sh-only and wire fencing; allowmaxlength = true (one go vs split is in scope)
+    if quick:
+        plan = [(7, "wf", "low1", (0, 1, 4, 5)), (7, "sh", "low2", (0, 3, 5)), (7, "sh", "low1", (4, 7)), (6, "sh", "half", (2, 5)), (6, "wf", "half", (4,))]
+        N = 12
+    else:
+        plan = [(n, mv, kind, tuple(range(12))) for n in (5, 6, 7, 8) for mv in ("sh", "wf") for kind in ("low1", "low2", "half")]
+        N = 16
+    for n, mv, kind, seeds in plan:
+        moves = ["sh"] * n if mv == "sh" else ["sh", "sh"] + ["wf"] * (n - 2)
+        for seed in seeds:
+            kw = dict(n_intf=n, moves=moves, workers=1, steps=N, seed=seed, allowmaxlength=True, init_reach=reach(kind, n))
+            rcases.append((f"{mv}{n}-{kind}", kw, "all"))
+    # (b) restart chains with allowmaxlength = false
+    N = 36 if quick else 48
+    setups = [("sh3", dict(n_intf=3, moves=["sh"] * 3)),
+              ("sh5-all", dict(n_intf=5, moves=["sh"] * 5, init_reach=reach("all", 5))),
+              ("mix5", dict(n_intf=5, moves=["sh", "sh", "wf", "sh", "wf"], init_reach=reach("half", 5))),
+              ("mix4-cap", dict(n_intf=4, moves=["sh", "wf", "wf", "sh"], cap=2.75))]
+    for label, s in setups:
+        for seed in ((0, 1, 5) if quick else (0, 1, 2, 3, 5, 7, 11, 99)):
+            k1 = 2 + seed % 3
+            if quick:
+                k2s = sorted({k1 + 2, 10, 14, 19, 25})
+                triples = [(k1, 9, 17), (k1, 13, 24)]
+            else:
+                k2s = list(range(k1 + 1, N - 2))
+                triples = [(k1, a, b) for a, b in ((k1 + 1, k1 + 2), (9, 17), (13, 24), (20, 30), (27, 40), (k1 + 3, N - 2))]
+                triples += [tuple([k1] + sorted(rng.sample(range(k1 + 1, N - 1), 2))) for _ in range(3)]
+            chains = [(k1,)] + [(k1, k2) for k2 in k2s] + triples
+            kw = dict(s, workers=1, steps=N, seed=seed, allowmaxlength=False)
+            ccases.append((label, kw, chains))
+    return rcases, ccases
+
+
+def round6_stage(ctx, quick, rng):
+    rcases, ccases = round6_cases(quick, rng)
+    # longest groups first (the chain groups), all in one pool
+    results = H.run_many(_dispatch6, [("c", c) for c in ccases] + [("r", c) for c in rcases], jobs=14, timeout=1200)
+    results = results[len(ccases):] + results[:len(ccases)]
+    rres, cres = results[:len(rcases)], results[len(rcases):]
+    tot = {"resort_groups": len(rcases), "resort_splits_compared": 0, "steps_in_which_sort_trajstate_moved_trajectories": 0,
+           "resort_groups_with_such_a_step": 0, "picks_with_P_recomputed": 0, "stale_P": 0,
+           "chain_groups": len(ccases), "chains_compared": 0, "chain_moves": 0, "moves_cut_by_random_length_bound": {"FTL": 0, "BTL": 0},
+           "cuts_after_2nd_or_later_restart_from_a_reloaded_path_generated_after_the_first": 0, "search_groups": 0}
+    nviol = 0
+    stale_seen = []       # (case, res)
+    byte_confirmed = False
+    for case, (tag, res) in zip(rcases, rres):
+        label, kw, mode = case
+        ctx.dist(f"resort:{label}")
+        if tag != "ok":
+            ctx.violation(f"harness failure on re-sorting case {label} seed {kw['seed']}: {res[:300]}", {"family": "resort", "case": case, "error": res}, found_input=False)
+            continue
+        for h in res["harness"][:1]:
+            ctx.violation(f"harness problem in re-sorting case {label} seed {kw['seed']}: {h[:300]}", {"family": "resort", "case": case, "problems": res["harness"]}, found_input=False)
+        if res.get("all_died"):
+            ctx.violation(f"re-sorting case {label} seed {kw['seed']}: {res['all_died']}"[:390], {"family": "resort", "case": [label, kw, "all"], "split": None}, found_input=False)
+        tot["resort_splits_compared"] += len(res["splits"])
+        tot["steps_in_which_sort_trajstate_moved_trajectories"] += len(res["sort_moves"])
+        tot["resort_groups_with_such_a_step"] += 1 if res["sort_moves"] else 0
+        tot["picks_with_P_recomputed"] += res["npicks"]
+        tot["stale_P"] += res.get("n_stale", 0)
+        for k in res["splits"]:
+            ctx.count(("resort", label, kw["seed"], k), nontrivial=True)
+        ctx.count(("resort-P", label, kw["seed"]), nontrivial=True)
+        if res["stale"]:
+            stale_seen.append((case, res))
+        for bf in res["byte_fail"][:1]:
+            byte_confirmed = True
+            if nviol < 4:
+                nviol += 1
+                ctx.violation(f"C06 statement fails on the implementation: {label}, seed {kw['seed']}, one worker: {bf['what']}"[:390],
+                              {"family": "resort", "case": [label, kw, "all"], "split": bf["split"], "problems": res["byte_fail"][:4],
+                               "stale_P": res["stale"][:2]}, found_input=True)
+    # search stage: the P oracle saw a stale matrix but no compared split differed -> more seeds, split right behind the stale steps
+    if stale_seen and not byte_confirmed:
+        seen_labels, scases = [], []
+        for case, res in stale_seen:
+            if case[0] not in seen_labels and len(seen_labels) < 3:
+                seen_labels.append(case[0])
+                for seed in range(100, 108):
+                    scases.append((case[0], dict(case[1], seed=seed), "stale"))
+        tot["search_groups"] = len(scases)
+        for case, (tag, res) in zip(scases, H.run_many(resort_group, scases, jobs=14, timeout=900)):
+            if tag != "ok":
+                continue
+            for k in res["splits"]:
+                ctx.count(("resort-search", case[0], case[1]["seed"], k), nontrivial=True)
+            for bf in res["byte_fail"][:1]:
+                byte_confirmed = True
+                if nviol < 4:
+                    nviol += 1
+                    ctx.violation(f"C06 statement fails on the implementation: {case[0]}, seed {case[1]['seed']}, one worker: {bf['what']}"[:390],
+                                  {"family": "resort", "case": [case[0], case[1], "stale"], "split": bf["split"], "problems": res["byte_fail"][:4],
+                                   "stale_P": res["stale"][:2]}, found_input=True)
+    for case, res in stale_seen[:2]:
+        s = res["stale"][0]
+        ctx.violation(f"C06: state that a restart does not reload: {case[0]}, seed {case[1]['seed']}: the pick after step {s['step']} of the uninterrupted run uses a "
+                      f"probability matrix that differs from the one recomputed from the current state (what a run restarted at step {s['step']} uses)"
+                      + ("; confirmed by the byte comparison of split runs" if byte_confirmed else "; no compared split run differed"),
+                      {"family": "resort", "case": [case[0], case[1], "all"], "split": s["step"], "stale_P": res["stale"][:2]}, found_input=byte_confirmed)
+    nviol = 0
+    for case, (tag, res) in zip(ccases, cres):
+        label, kw, chains = case
+        ctx.dist(f"chain:{label}")
+        if tag != "ok":
+            ctx.violation(f"harness failure on restart-chain case {label} seed {kw['seed']}: {res[:300]}", {"family": "chain", "case": case, "error": res}, found_input=False)
+            continue
+        for h in res["harness"][:1]:
+            ctx.violation(f"harness problem in restart-chain case {label} seed {kw['seed']}: {h[:300]}", {"family": "chain", "case": case, "problems": res["harness"]}, found_input=False)
+        if res.get("all_died"):
+            ctx.violation(f"restart-chain case {label} seed {kw['seed']}: {res['all_died']}"[:390],
+                          {"family": "chain", "case": [label, kw, [list(c) for c in chains[:3]]]}, found_input=False)
+        tot["chains_compared"] += len(res["compared"])
+        tot["chain_moves"] += res["moves"]
+        for st in ("FTL", "BTL"):
+            tot["moves_cut_by_random_length_bound"][st] += res["cuts"][st]
+        tot["cuts_after_2nd_or_later_restart_from_a_reloaded_path_generated_after_the_first"] += res["sensitive_cuts"]
+        for ch in res["compared"]:
+            ctx.count(("chain", label, kw["seed"], tuple(ch)), nontrivial=True)
+        for bf in res["byte_fail"][:1]:
+            if nviol < 4:
+                nviol += 1
+                ctx.violation(f"C06 statement fails on the implementation: {label}, seed {kw['seed']}, allowmaxlength = false, one worker: {bf['what']}"[:390],
+                              {"family": "chain", "case": [label, kw, [list(chains[0]), bf["chain"]]], "problems": res["byte_fail"][:4]}, found_input=True)
+    if rcases:
+        ctx.sample({"family": "resort", "label": rcases[0][0], **rcases[0][1]})
+    if ccases:
+        ctx.sample({"family": "chain", "label": ccases[0][0], **ccases[0][1], "chains": [list(c) for c in ccases[0][2]]})
+    ctx.cov["correspondence"]["round6"] = tot
+
+
+def _replay_resort(arg):
+    label, kw, k = arg
+    return resort_group((label, kw, "all" if k is None else [k]))
+
+
+def _dispatch6(arg):
+    kind, case = arg
+    return resort_group(case) if kind == "r" else chain_group(case)
+
+
 def run(ctx):
     common.proof_stage(ctx, "C06", ["extract/c06.vo"])
     runner = common.runner_stage(ctx, "c06")
@@ -276,12 +712,27 @@ def run(ctx):
             ctx.violation(f"C06 statement fails on the implementation: {res['problems'][0]}", {"turtle": res}, found_input=True)
     ctx.cov["rule"] = "one evaluation = one (seed, steps, moves, split chain, workers) experiment: straight run vs restarted run compared byte for byte (one worker) or re-issued jobs compared with the recorded ones (several workers), or one generator recovery compared with the model"
     ctx.cov["correspondence"] = {"cases": len(cases), "generator_recoveries": len(reqs)}
+    round6_stage(ctx, quick, rng)
+    ctx.cov["rule"] += ("; or one split point of a re-sorting set-up (straight run vs run restarted there, every step), one straight run with the "
+                        "probability matrix recomputed at every pick, or one restart chain with allowmaxlength = false compared with the chain "
+                        "that has only the first restart")
     ctx.cov["trusted_base"] += ["extraction + ocaml/c06_driver.ml", "py/sysharness.py", "py/plugins/engines.py lattice engine"]
     ctx.assumptions += ["order values are exactly representable at six decimals (lattice plug-in); TurtleMD only same-seed comparison"]
 
 
 def replay(doc):
     c = doc["replay"]["case"]
+    fam = doc["replay"].get("family")
+    if fam == "resort":
+        kw = dict(c[1])
+        # the stored split only (mode 'all' would redo every split point)
+        (tag, res), = H.run_many(_replay_resort, [(c[0], kw, doc["replay"].get("split"))], jobs=1)
+        print(tag, res if tag != "ok" else {"byte_fail": res["byte_fail"], "stale_P": res["stale"][:1], "harness": res["harness"]})
+        return 1 if (tag != "ok" or res["byte_fail"] or res["stale"] or res["harness"]) else 0
+    if fam == "chain":
+        (tag, res), = H.run_many(chain_group, [(c[0], dict(c[1]), [tuple(x) for x in c[2]])], jobs=1)
+        print(tag, res if tag != "ok" else {"byte_fail": res["byte_fail"], "harness": res["harness"], "cuts": res["cuts"]})
+        return 1 if (tag != "ok" or res["byte_fail"] or res["harness"]) else 0
     (tag, res), = H.run_many(case_run, [(c[0], c[1], c[2], c[3], tuple(c[4]), c[5], c[6])], jobs=1)
     print(tag, res if tag != "ok" else res["problems"])
     return 1 if (tag != "ok" or res["problems"]) else 0
